@@ -1,7 +1,10 @@
 package props
 
 import (
+	"crypto/ecdsa"
+	"crypto/ed25519"
 	"crypto/sha256"
+	"crypto/x509"
 	"fmt"
 	"math"
 	"runtime/debug"
@@ -289,8 +292,34 @@ func followUps(tl *c06Tools, kind refcose.Kind, v any, wire []byte) error {
 func keyFollowUps(k *cose.Key, wire []byte) error {
 	return guard("Key follow-ups", wire, func() {
 		k.MarshalCBOR()
-		k.PublicKey()
-		k.PrivateKey()
+		// a key handed out without error is used the way applications use keys: compared, fed back into the
+		// constructors, serialised by the standard library
+		if pub, err := k.PublicKey(); err == nil {
+			switch p := pub.(type) {
+			case *ecdsa.PublicKey:
+				p.Equal(p)
+				p.Curve.IsOnCurve(p.X, p.Y)
+				x509.MarshalPKIXPublicKey(p)
+			case ed25519.PublicKey:
+				p.Equal(p)
+				x509.MarshalPKIXPublicKey(p)
+			}
+			if k2, err := cose.NewKeyFromPublic(pub); err == nil {
+				k2.MarshalCBOR()
+			}
+		}
+		if priv, err := k.PrivateKey(); err == nil {
+			switch p := priv.(type) {
+			case *ecdsa.PrivateKey:
+				p.Equal(p)
+				p.PublicKey.Equal(&p.PublicKey)
+			case ed25519.PrivateKey:
+				p.Equal(p)
+			}
+			if k2, err := cose.NewKeyFromPrivate(priv); err == nil {
+				k2.MarshalCBOR()
+			}
+		}
 		k.AlgorithmOrDefault()
 		k.EC2()
 		k.OKP()
